@@ -23,7 +23,7 @@ PROPS["C03"] = dict(
           "pair of the three excluded}, each once, r12/r13/r23 and distances for the stored bead order; callbacks compared as a set "
           "(multiplicity not required, see DESIGN). non-trivial = >=1 expected triple with a leg across a periodic face AND >=1 non-pair "
           "within the neighbouring cells."
-          " Histories: in 30 % of the cases every search object has first produced a list for a smaller (or the same) cutoff, then Cleanup + setCutoff. Histories: 30 % of the cases run the search on a search object that already completed a search with a smaller or equal cutoff (factor 0.3..1.0) on the same topology."),
+          " Histories: in 30 % of the cases every search object has first produced a list for a smaller (or the same) cutoff, then Cleanup + setCutoff. Histories: 30 % of the cases run the search on a search object that already completed a search with a smaller or equal cutoff (factor 0.3..1.0) on the same topology. 12 % of the cases are a constructed face-hugging scenario: cutoff = height/n*(1+2^-24..-28), bead 0 a hair below a cell plane of the n-cell grid, bead 1 at cutoff*(1-2^-26..-30) along that direction; tie placements also use distances cutoff*(1 +- 2^-26..-36)."),
     assumptions=COMMON_ASSUME + [
         "open boxes and cutoffs >= h_min/2 are outside the quantifier and never generated",
         "ambiguity band |d - cutoff| <= 1e-12*cutoff + 2^-46*(|p_i|+|p_j|): either outcome accepted (covers rounding of the image "
